@@ -15,7 +15,6 @@ import subprocess
 import sys
 import time
 import traceback
-from concurrent.futures import ProcessPoolExecutor, as_completed
 
 VERIF_DIR = os.path.dirname(os.path.dirname(os.path.abspath(__file__)))
 
@@ -107,7 +106,84 @@ def _worker_init():
     sys.setrecursionlimit(400)
 
 
-def run_batch(check_id, tier, master, start, count, keep_digests=False):
+_BASE_DIR = [None]
+
+
+def base_dir():
+    """Scratch directory of this check invocation (marker files of the simulated file system live below it)."""
+    if _BASE_DIR[0] is None or not os.path.isdir(_BASE_DIR[0]):
+        import tempfile
+        _BASE_DIR[0] = tempfile.mkdtemp(prefix="dsim_fs.", dir="/var/tmp")
+    return _BASE_DIR[0]
+
+
+def cleanup_base_dir():
+    import shutil
+    if _BASE_DIR[0] and os.path.isdir(_BASE_DIR[0]):
+        try:
+            os.chdir("/")
+        except OSError:
+            pass
+        shutil.rmtree(_BASE_DIR[0], ignore_errors=True)
+    _BASE_DIR[0] = None
+
+
+def enter_private_dir(tag):
+    """chdir into a fresh, private directory: SimFS paths are relative names mirrored there as marker files."""
+    d = os.path.join(base_dir(), "%s.%d" % (tag, os.getpid()))
+    os.makedirs(d, exist_ok=True)
+    os.chdir(d)
+    return d
+
+
+def call_in_child(fn, *args, **kw):
+    """Run fn(*args) in a child forked from this (pristine) process and return its result.
+
+    The parent never executes library code itself, so every child starts from the same process state:
+    process-global state a broken library may keep (class-level caches ...) cannot leak between executions.
+    """
+    timeout = kw.pop("timeout", 600)
+    ctx = multiprocessing.get_context("fork")
+    parent, child = ctx.Pipe(duplex=False)
+    pid = os.fork()
+    if pid == 0:
+        code = 0
+        try:
+            parent.close()
+            _worker_init()
+            d = enter_private_dir("c")
+            try:
+                res = ("ok", fn(*args))
+            except BaseException:
+                res = ("err", traceback.format_exc()[-3000:])
+            child.send(res)
+            child.close()
+            import shutil
+            os.chdir("/")
+            shutil.rmtree(d, ignore_errors=True)
+        except BaseException:
+            code = 3
+        finally:
+            os._exit(code)
+    child.close()
+    try:
+        if not parent.poll(timeout):
+            os.kill(pid, 9)
+            os.waitpid(pid, 0)
+            raise HarnessError("child timed out after %ds" % timeout)
+        kind, val = parent.recv()
+    except EOFError:
+        os.waitpid(pid, 0)
+        raise HarnessError("child died without a result")
+    finally:
+        parent.close()
+    os.waitpid(pid, 0)
+    if kind == "err":
+        raise HarnessError(val)
+    return val
+
+
+def run_batch(check_id, tier, master, start, count, keep_digests=False, chunk_start=None):
     """Run indices [start, start+count) of (property, tier, master seed). Executed in a worker."""
     from dsim import checks
     check = checks.get(check_id)
@@ -141,7 +217,8 @@ def run_batch(check_id, tier, master, start, count, keep_digests=False):
             out["vcount"][cls] += 1
             if out["vcount"][cls] <= 3 and len(out["violations"]) < 30:
                 out["violations"].append({"index": idx, "seed": seed, "cfg": cfg, "steps": rec["steps"],
-                                          "violation": v, "digest": rec["digest"]})
+                                          "violation": v, "digest": rec["digest"],
+                                          "chunk_start": start if chunk_start is None else chunk_start})
         elif len(out["samples"]) < 2 and check.nontrivial(rec):
             out["samples"].append({"index": idx, "cfg": cfg, "steps": rec["steps"], "summary": rec["summary"]})
     faulthandler.cancel_dump_traceback_later()
@@ -167,37 +244,86 @@ def merge(total, part):
 
 
 def explore(check_id, tier, master, runs, workers, wall_cap, chunk=100, log=None):
-    """Seeded search over `runs` simulated runs on `workers` processes (fork)."""
+    """Seeded search over `runs` simulated runs; every chunk of runs executes in its own child, forked from the
+    pristine parent, `workers` children at a time."""
+    from multiprocessing.connection import wait
     total = {"n": 0, "stats": collections.Counter(), "states": set(), "grams": set(), "nontrivial": set(),
              "violations": [], "vcount": collections.Counter(), "samples": [], "digests": {}, "steps": 0,
              "harness_errors": []}
     t0 = time.time()
-    jobs = [(s, min(chunk, runs - s)) for s in range(0, runs, chunk)]
+    jobs = [(s_, min(chunk, runs - s_)) for s_ in range(0, runs, chunk)]
     ctx = multiprocessing.get_context("fork")
+    live = {}      # connection -> (pid, start, count, t_started)
+    it = iter(jobs)
     stopped = False
-    with ProcessPoolExecutor(max_workers=workers, mp_context=ctx, initializer=_worker_init) as ex:
-        futs = {}
-        it = iter(jobs)
-        def submit_next():
+    base_dir()
+
+    def launch():
+        try:
+            s_, c_ = next(it)
+        except StopIteration:
+            return False
+        parent, child = ctx.Pipe(duplex=False)
+        pid = os.fork()
+        if pid == 0:
+            code = 0
             try:
-                s, c = next(it)
-            except StopIteration:
-                return False
-            futs[ex.submit(run_batch, check_id, tier, master, s, c, s < 2 * chunk)] = (s, c)
-            return True
-        for _ in range(workers * 2):
-            if not submit_next():
-                break
-        while futs:
-            done = next(as_completed(list(futs)))
-            s, c = futs.pop(done)
-            merge(total, done.result())
-            if time.time() - t0 > wall_cap:
-                stopped = True
-            if not stopped:
-                submit_next()
-            if log and total["n"] % (chunk * 50) == 0:
-                log("  ... %d runs, %.0fs, %d violation classes" % (total["n"], time.time() - t0, len(total["vcount"])))
+                parent.close()
+                for conn in list(live):
+                    conn.close()
+                _worker_init()
+                d = enter_private_dir("w")
+                try:
+                    res = ("ok", run_batch(check_id, tier, master, s_, c_, s_ < 2 * chunk, chunk_start=s_))
+                except BaseException:
+                    res = ("err", traceback.format_exc()[-3000:])
+                child.send(res)
+                child.close()
+                import shutil
+                os.chdir("/")
+                shutil.rmtree(d, ignore_errors=True)
+            except BaseException:
+                code = 3
+            finally:
+                os._exit(code)
+        child.close()
+        live[parent] = (pid, s_, c_, time.time())
+        return True
+
+    for _ in range(workers):
+        if not launch():
+            break
+    done_chunks = 0
+    while live:
+        ready = wait(list(live), timeout=30)
+        now = time.time()
+        for conn in list(live):
+            pid, s_, c_, ts = live[conn]
+            if conn in ready:
+                try:
+                    kind, val = conn.recv()
+                except EOFError:
+                    kind, val = "err", "worker for runs %d..%d died" % (s_, s_ + c_)
+                conn.close()
+                del live[conn]
+                os.waitpid(pid, 0)
+                if kind == "ok":
+                    merge(total, val)
+                else:
+                    total["harness_errors"].append({"index": s_, "seed": None, "trace": val})
+                done_chunks += 1
+                if time.time() - t0 > wall_cap:
+                    stopped = True
+                if not stopped:
+                    launch()
+                if log and done_chunks % 50 == 0:
+                    log("  ... %d runs, %.0fs, %d violation classes" % (total["n"], time.time() - t0, len(total["vcount"])))
+            elif now - ts > 900:
+                os.kill(pid, 9)
+                os.waitpid(pid, 0)
+                conn.close()
+                del live[conn]
+                total["harness_errors"].append({"index": s_, "seed": None, "trace": "worker for runs %d..%d hung (killed after 900 s)" % (s_, s_ + c_)})
     total["wall"] = time.time() - t0
     total["stopped_by_wall_cap"] = stopped
     return total
@@ -205,25 +331,45 @@ def explore(check_id, tier, master, runs, workers, wall_cap, chunk=100, log=None
 
 # ------------------------------------------------------------------------------------ shrinking
 
-def _fails_same(check, cfg, steps, target):
-    try:
-        rec = run_one(check, cfg, steps=steps)
-    except Exception:
+def _exec_case(check_id, tier, master, prefix, cfg, steps):
+    """Executed in a pristine child: first regenerate and execute the prefix runs (same chunk, earlier indices), then the steps."""
+    from dsim import checks
+    check = checks.get(check_id)
+    for idx in prefix:
+        seed = derive_seed(master, check_id, tier, idx)
+        rng = random.Random(seed)
+        try:
+            run_one(check, check.gen_cfg(rng, tier), rng=rng)
+        except Exception:
+            pass
+    rec = run_one(check, cfg, steps=steps, want_events=True)
+    rec.pop("stats", None)
+    rec.pop("states", None)
+    rec.pop("grams", None)
+    return rec
+
+
+def make_tester(check_id, tier, master, prefix, cfg, target):
+    def test(cand_steps, cand_prefix=None):
+        try:
+            rec = call_in_child(_exec_case, check_id, tier, master, prefix if cand_prefix is None else cand_prefix, cfg, cand_steps, timeout=300)
+        except HarnessError:
+            return None
+        v = rec["violation"]
+        if v and v["property"] == target["property"] and v["oracle"] == target["oracle"]:
+            return rec
         return None
-    v = rec["violation"]
-    if v and v["property"] == target["property"] and v["oracle"] == target["oracle"]:
-        return rec
-    return None
+    return test
 
 
-def shrink(check, cfg, steps, target, budget=400):
+def shrink(test_fn, steps, budget=400):
     """ddmin over the step list; a candidate is accepted only if the same (property, oracle) fails."""
     used = [0]
     def test(cand):
         if used[0] >= budget:
             return None
         used[0] += 1
-        return _fails_same(check, cfg, cand, target)
+        return test_fn(cand)
     best = test(steps)
     if best is None:
         return steps, None, used[0]
@@ -247,36 +393,19 @@ def shrink(check, cfg, steps, target, budget=400):
             if size == 1:
                 break
             n = min(len(cur), n * 2)
-    # per-step simplification offered by the world
-    simp = getattr(check, "simplify_step", None)
-    if simp:
-        changed = True
-        while changed and used[0] < budget:
-            changed = False
-            for i, st in enumerate(cur):
-                for alt in simp(st):
-                    cand = cur[:i] + [alt] + cur[i + 1:]
-                    rec = test(cand)
-                    if rec is not None:
-                        cur = cand[:rec["violation"]["step_index"] + 1]
-                        best = rec
-                        changed = True
-                        break
-                if changed:
-                    break
     final = test(cur) or best
     return cur, final, used[0]
 
 
 # ------------------------------------------------------------------------------------ replay files
 
-def write_replay(check_id, tier, master, vrec, steps, final):
+def write_replay(check_id, tier, master, vrec, steps, final, prefix=()):
     d = os.path.join(VERIF_DIR, "replays")
     os.makedirs(d, exist_ok=True)
     path = os.path.join(d, "%s-%s-%d-%d.json" % (check_id, final["violation"]["oracle"], master, vrec["index"]))
     doc = {"property": check_id, "tier": tier, "seed": master, "run": vrec["index"], "run_seed": vrec["seed"],
            "cfg": vrec["cfg"], "steps": steps, "expected": final["violation"], "digest": final["digest"],
-           "original_length": len(vrec["steps"])}
+           "original_length": len(vrec["steps"]), "prefix_runs": list(prefix)}
     with open(path, "w") as f:
         json.dump(doc, f, indent=1, default=str)
     return path
@@ -286,8 +415,8 @@ def replay_file(path):
     from dsim import checks
     with open(path) as f:
         doc = json.load(f)
-    check = checks.get(doc["property"])
-    rec = run_one(check, doc["cfg"], steps=doc["steps"], want_events=True)
+    enter_private_dir("r")
+    rec = _exec_case(doc["property"], doc.get("tier", "quick"), doc.get("seed", 0), doc.get("prefix_runs", []), doc["cfg"], doc["steps"])
     return doc, rec
 
 
